@@ -1,0 +1,9 @@
+//go:build !verif
+
+package exec
+
+import r "github.com/DemoHn/Zn/pkg/runtime"
+
+func verifOnVM(vm *r.VM) {}
+
+func verifTick() {}
